@@ -18,6 +18,7 @@ ASSUME = [
     "'wide9' family: bases = the two ten-task projects of mc/props/wide.py with every single toggle, alone and with reversed declaration order (thorough: every subset of <= 2 of the 38 toggles); intruder = priority 1, 30 min or 10 h, on each of r1-r4, declared first, in the middle or last; pairs where a task is unscheduled or ends after the declared 8-week window in either run are skipped and counted",
     "'inhprio' family: leaves with an own priority (500 written out, or 600) one or two levels below a container that hands down 100 / 200 / 450; the added task's priority (300 / 460) lies between the container's and the leaves' - still strictly the lowest among the tasks that do work",
     "'msgate' family: every base task waits for a container of dated milestones (one or two of them, one or two levels deep); the added task (1 h / 8 h on either resource, declared first or last) is the only other candidate in the first scan",
+    "'mixprio' family: forward bases (one task pinned) with an added lowest-priority backward task (alap + end) on the same resource and days, and the mirror image (backward base, added forward-pinned task); whole-slot efforts",
     "'alapext' family (open finding D55): backward-anchored work + a 40 / 60 h lowest-priority task that fits the declared window but triggers the scheduler's window extension; no precondition is applied there",
     "in backward (ALAP) projects intruders that depend on a base task are not generated: there the added task is a successor whose start is its predecessor's deadline, which C04 requires to be honoured",
 ]
@@ -139,6 +140,34 @@ def msgate_specs(it):
     return base, w
 
 
+def mixprio(tier):
+    """Mixed directions: forward base tasks (one pinned, higher priorities) and an added lowest-priority BACKWARD task (alap + end) that wants
+    the same resource in the same days - and the mirror image: a backward project with an added lowest-priority forward-pinned task.
+    Whole-slot efforts; the window is wide enough for everything."""
+    for mirror in (False, True):
+        for m in (120, 480):
+            for res in ("r1", "r2"):
+                for pos in ("first", "last"):
+                    for day in (2, 3):
+                        yield {"kind": "mixprio", "mirror": mirror, "m": m, "res": res, "pos": pos, "day": day}
+
+
+def mixprio_specs(it):
+    if not it["mirror"]:
+        base = {"dur": "3w", "resources": [{"id": "r1"}, {"id": "r2"}],
+                "tasks": [{"id": "a", "effort": 1440, "alloc": ["r1"], "prio": 800, "start": "2025-01-07-09:00"}, {"id": "b", "effort": 240, "alloc": ["r2"], "prio": 600, "deps": ["a"]},
+                          {"id": "hi", "effort": 480, "alloc": ["r2"], "prio": 900}]}
+        zz = {"id": "zz", "effort": it["m"], "alloc": [it["res"]], "prio": 1, "sched": "alap", "end": f"2025-01-{6 + it['day']:02d}-17:00"}
+    else:
+        base = {"dur": "3w", "alap": True, "resources": [{"id": "r1"}, {"id": "r2"}],
+                "tasks": [{"id": "a", "effort": 1440, "alloc": ["r1"], "prio": 800, "end": "2025-01-16-17:00"}, {"id": "b", "effort": 240, "alloc": ["r2"], "prio": 600, "prec": ["a"]},
+                          {"id": "hi", "effort": 480, "alloc": ["r2"], "prio": 900, "end": "2025-01-15-17:00"}]}
+        zz = {"id": "zz", "effort": it["m"], "alloc": [it["res"]], "prio": 1, "sched": "asap", "start": f"2025-01-{12 + it['day']:02d}-09:00"}
+    w = copy.deepcopy(base)
+    w["tasks"].insert(0 if it["pos"] == "first" else len(w["tasks"]), zz)
+    return base, w
+
+
 def alapext_specs(it):
     a = {"id": "a", "effort": it["a"] * 60, "alloc": ["r1"]}
     if not it["palap"]:
@@ -169,6 +198,8 @@ def specs(item):
         return inhprio_specs(item)
     if item.get("kind") == "msgate":
         return msgate_specs(item)
+    if item.get("kind") == "mixprio":
+        return mixprio_specs(item)
     b = item["base"]
     base = c07.to_spec(b)
     base["alap"] = b["alap"]
@@ -234,7 +265,7 @@ def evaluate(item):
             if a != b:
                 v.append(("disturbed", f"{t['id']} (scenario {sc}): alone {a}, with lowest-priority task zz {b}"))
     zz = t2.get("zz") or t2.get("bg.zz")
-    if wide9 or item.get("kind") in ("alapext", "inhprio", "msgate"):
+    if wide9 or item.get("kind") in ("alapext", "inhprio", "msgate", "mixprio"):
         r["v"] = common.dedup(v)
         r["nt"] = True   # every resource of the wide bases carries base work
         return r
@@ -281,6 +312,7 @@ def run(ctx):
     explore(ctx, alapext(ctx.tier), "mc.props.c09:evaluate", st, payload=payload, sample_of=sample, trait=trait)
     explore(ctx, inhprio(ctx.tier), "mc.props.c09:evaluate", st, payload=payload, sample_of=sample)
     explore(ctx, msgate(ctx.tier), "mc.props.c09:evaluate", st, payload=payload, sample_of=sample)
+    explore(ctx, mixprio(ctx.tier), "mc.props.c09:evaluate", st, payload=payload, sample_of=sample)
     common.vacuity_guard(ctx, st)
     cov = st.coverage(
         "all (base, intruder) pairs of the stated base universe x intruder alphabet, two real scheduler runs per pair; states = distinct "
